@@ -47,7 +47,8 @@ REQUIRED_PROBES = ['count_negative', 'count_gt_depth', 'count_eq_depth',
                    'nested_depth_3', 'try_wrapped_exempt', 'name_lowercase',
                    'alias_lowercase', 'failed_activation', 'node_restart',
                    'program_accepted_upgraded', 'upgraded_rejects_legacy_accepts',
-                   'merkleval_program_accepted_upgraded', 'nop_probe_nested']
+                   'merkleval_program_accepted_upgraded', 'nop_probe_nested',
+                   'count_in_upper_case_hex']
 SPELL_CONTEXTS = ['true if { %s }', 'def 0 { %s }', 'try { %s } except { true }',
                   'true loop { %s false }', 'false if { true } else { %s }']
 PREDS = ['all_equal', 'all_distinct', 'none_empty', 'total_len_le', 'first_is_sha_of_second',
@@ -457,8 +458,8 @@ def gen_plan(run_seed, idx, tier):
         else:
             f = rng.choice(forks)
             txs['t%d' % i] = {'kind': 'spelling', 'fork': forks.index(f),
-                              'count': rng.choice([0, 1, 2, 127, 128, 255, rng.below(256)]),
-                              'how': rng.choice(['d', 'x'])}
+                              'count': rng.choice([0, 1, 2, 10, 127, 128, 171, 255, rng.below(256)]),
+                              'how': rng.choice(['d', 'x', 'X'])}
     steps = []
     horizon = 1000
     for n in nodes:
@@ -784,7 +785,10 @@ def check_spellings(run, node, f, count, how, i, legacy=None):
     """F2 / F3 on a node where fork f is active."""
     code = f['code']
     want = bytes([code, count])
-    arg = ('d%d' % count) if how == 'd' else ('x%02x' % count)
+    # (hex digits in either case; 'X' is only drawn for counts that have a letter digit)
+    arg = ('d%d' % count) if how == 'd' else ('x%02X' % count) if how == 'X' else ('x%02x' % count)
+    if how == 'X' and arg != arg[0] + arg[1:].lower():
+        run.probe('count_in_upper_case_hex')
     for sp in [f['name']] + list(f['aliases']):
         r = node.call('compile', '%s %s' % (sp, arg))
         kind = 'name' if sp == f['name'] else 'alias'
@@ -836,6 +840,9 @@ def check_legacy_spelling(run, node, f, count, i):
         r = node.call('compile', 'NOP%d d%d' % (code, count))
         run.check('legacy_compiles_nop', r == ['ok', want], 'C20/one_bytecode/legacy_compile_nop', step=i,
                   detail={'got': [r[0], r[1].hex() if r[0] == 'ok' else r[1]], 'want': want.hex()})
+    r = node.call('compile', 'NOP%d x%02X' % (code, count))
+    run.check('legacy_compiles_nop_hex', r == ['ok', want], 'C20/one_bytecode/legacy_compile_nop_hex_upper',
+              step=i, detail={'got': [r[0], r[1].hex() if r[0] == 'ok' else r[1]], 'want': want.hex()})
     r = node.call('compile', 'NOP%d x%02x' % (code, count))
     run.check('legacy_compiles_nop_hex', r == ['ok', want], 'C20/one_bytecode/legacy_compile_nop_hex', step=i,
               detail={'got': [r[0], r[1].hex() if r[0] == 'ok' else r[1]], 'want': want.hex()})
